@@ -144,6 +144,42 @@ func (c11) Run(c *fw.Case) {
 			models = append(models, nearMiss(r, base, 0))
 		}
 	}
+	switch r.IntN(14) {
+	case 0:
+		// size stress: the same eight values at the bottom of a tower of 99..1001 containers
+		// (depth guards, visited sets and fallbacks of an implementation live at such depths)
+		depth := gen.Pick(r, []int{63, 64, 65, 99, 100, 101, 102, 127, 128, 129, 255, 256, 257, 999, 1000, 1001})
+		shape := r.IntN(3) // arrays, objects, alternating
+		for i, m := range models {
+			for d := 0; d < depth; d++ {
+				if shape == 0 || (shape == 2 && d%2 == 0) {
+					m = []any{m}
+				} else {
+					m = map[string]any{"k": m}
+				}
+			}
+			models[i] = m
+		}
+	case 1:
+		// size stress: long arrays / wide objects that differ (or not) in one late member
+		long := gen.LongValue(r)
+		models = []any{long, long, long}
+		for len(models) < 8 {
+			c := gen.Clone(long)
+			switch x := c.(type) {
+			case []any:
+				i := gen.Pick(r, []int{len(x) - 1, len(x) - 1, 63, 64, 0, len(x) / 2})
+				if i < len(x) {
+					x[i] = nearMiss(r, x[i], 1)
+				}
+			case map[string]any:
+				ks := sortedKeys(x)
+				k := ks[len(ks)-1-r.IntN(min(3, len(ks)))]
+				x[k] = nearMiss(r, x[k], 1)
+			}
+			models = append(models, c)
+		}
+	}
 	var vals []*reprVal
 	for _, m := range models {
 		for k := 0; k < 2; k++ {
@@ -160,6 +196,42 @@ func (c11) Run(c *fw.Case) {
 				panic(fmt.Sprintf("repr generator changed the value: model %s repr %s (%#v)", mc, cs, rv.val))
 			}
 			vals = append(vals, rv)
+		}
+	}
+	if c.Idx%10 == 3 {
+		// aliasing inside one value: rows cut as prefixes of ONE backing array (s[:1], s[:2], ...), on both sides of the comparison;
+		// the two sides differ only beyond the shortest prefix, or not at all. (A memo or identity shortcut keyed by the data pointer
+		// sees the same key for s[:1] and s[:2].)
+		n := 2 + r.IntN(3)
+		s := make([]any, n)
+		for i := range s {
+			s[i] = gen.Repr(r, gen.Value(r, gen.ValueOpts{MaxDepth: 1, MaxLen: 2}, 1), gen.ReprOpts{}, nil)
+		}
+		mk := func(backing []any) *reprVal {
+			rows := make([]any, 0, len(backing))
+			for k := 1; k <= len(backing); k++ {
+				rows = append(rows, backing[:k])
+			}
+			if r.IntN(2) == 0 {
+				rows[0], rows[len(rows)-1] = rows[len(rows)-1], rows[0]
+			}
+			rv := &reprVal{val: rows}
+			rv.canon = canon.Must(rows)
+			rv.trace.Kinds = map[string]bool{"aliased-prefix-rows": true}
+			return rv
+		}
+		vals = vals[:0]
+		for k := 0; k < 4; k++ {
+			u := append([]any{}, s...)
+			if k > 0 {
+				i := 1 + r.IntN(n-1) // never the first element: the shortest prefixes stay equal
+				u[i] = gen.Repr(r, nearMiss(r, gen.Value(r, gen.ValueOpts{MaxDepth: 1, MaxLen: 2}, 1), 1), gen.ReprOpts{}, nil)
+			}
+			x, y := mk(u), mk(append([]any{}, u...))
+			if r.IntN(2) == 0 {
+				x, y = y, x
+			}
+			vals = append(vals, x, y)
 		}
 	}
 	for i, x := range vals {
